@@ -317,6 +317,30 @@ theorem c11_account_complete (O : Opaque) (p0 p1 hdr st acc state : PCell) (blk 
     checkAccountProof O [p0, p1] blk addr state = true := by
   simp [checkAccountProof, h0, hhdr, hsh, hst, hs, h1, hl, hh]
 
+/-- THE DICTIONARY PARSER OF THE WALK IS THE C10 PARSER MODEL.  `parseAugP` (Model/Locate.lean: `parse_aug` on constructed
+cells, used by `locateAccount`) succeeds exactly when the C10 model `Hashmap.parseAugEdge` — the function the C10
+correspondence and `c10_parse_any_aug` are about — succeeds on the underlying tree (`PCell.toCell`), and returns the same
+keys in the same order, for any two pairs of extra/value deserialisers that succeed on the same slices and leave the same
+rest (`DecCompat`).  So the only new hand-written parser pieces of the walk are the field readers (`readDepthBalance`,
+`readShardAccount`, `stateRefGroup`, the state header). -/
+theorem c11_parse_aug_is_c10 {X X' Y' : Type} (decY : PSlice → Option PSlice) (decX : PSlice → Option X)
+    (D : Spec.Hashmap.AugDec X' Y') (hc : DecCompat decY decX D) (c : PCell) (keyLen : Int) (pfx : Bits) :
+    (parseAugP decY decX c keyLen pfx).map (·.map Prod.fst) =
+      (Hashmap.parseAugEdge D c.toCell keyLen pfx).map (·.1.map Prod.fst) :=
+  parseAugP_c10 decY decX D hc c keyLen pfx
+
+/-- non-vacuity of `DecCompat`: readers that only look at the bits (here: skip 2 extra bits, then require 3 value bits) -/
+example : DecCompat (X := Unit) (X' := Unit) (Y' := Unit)
+    (fun s => if s.1.length < 2 then none else some (s.1.drop 2, s.2))
+    (fun s => if s.1.length < 3 then none else some ())
+    ⟨fun s => if s.1.length < 2 then none else some ((), (s.1.drop 2, s.2)),
+     fun s => if s.1.length < 3 then none else some ()⟩ := by
+  constructor
+  · intro rest refs
+    by_cases h : rest.length < 2 <;> simp [h]
+  · intro sl
+    by_cases h : sl.1.length < 3 <;> simp [h]
+
 /-- COMPLETENESS of the walk on HONEST state proofs (any pruning off the path).  Let the state cell `st` be an ordinary
 cell with the `shard_state` tag, the `ShardIdent` tag `00` and ≥ 362 bits, references `omq :: accs :: grp :: …` (`omq` is
 never parsed — any cell, e.g. a pruned branch); `accs` an ordinary cell `1 ++ extra` with references `root :: …` whose
